@@ -643,6 +643,7 @@ func (c *c02Run) endToEnd(tier string) {
 		}
 	}
 	c.refusals()
+	c.commitRetry()
 	c.largeTables(tier)
 	c.encodingPaths(tier)
 }
